@@ -120,6 +120,8 @@ def build_case(mod, meta, symbolic=True, concrete_inputs=None, rm_mode='sym'):
     fn = mod.fns[meta['name']]
     case = Case()
     needs_rm = T.kind == 'f' or uses_fp(fn)
+    if rm_mode == 'sym' and o.rm != 'sym':
+        rm_mode = o.rm
     if symbolic and rm_mode == 'sym' and needs_rm:
         rm, rm_asm = make_rm('sym')
     else:
